@@ -622,6 +622,13 @@ class World:
         for k, pl in enumerate(self.plans):
             if pl[0] == bid and pl[1] == change and pl[2].lower() == name.lower():
                 del self.plans[k]
+                if pl[3] == -1:
+                    # the handler cancels its own browser (the real _async_cancel), in the middle of the batch being fired
+                    self.log.append(("k", bid, None, [bid], None, self.depth))
+                    b = self.browsers.pop(bid, None)
+                    if b is not None:
+                        b._async_cancel()
+                    return
                 # the one clock reading the creation's async_add_listener is about to make (the clock ticks per reading during D, W and
                 # X ops once the op's first instant has been read)
                 reading = None if _CLOCK[0] is None else int(_CLOCK[0] + (_TICKING[0] or 0))
@@ -836,6 +843,8 @@ def render_nest(obs):
                 out.append("Q%d:%d>%d@%d" % (depth, lid, x[3], t))
         elif kind == "b":
             out.append("B%d:%d>%d" % (depth, x[0], x[1]))
+        elif kind == "k":
+            out.append("K%d:%d" % (depth, x[0]))
         elif depth >= 1:
             if kind == "u":
                 if lid is None:
